@@ -835,3 +835,131 @@ def r07_10_half_day(ctx: Ctx) -> RuleResult:
                 else:
                     rr.fail(g.qual, f"the formatter chooses the PM designator on `{unparse(n.test)[:60]}`, which is {bad[1]} for hour {bad[0]}", ctx.loc(g, n))
     return rr
+
+
+@rule("C07")
+def r07_11_parse_digit_capacity(ctx: Ctx) -> RuleResult:
+    """Every numeric field is parsed by `_add_parse_value_action(min_digits, max_digits, char, min_value, max_value, ...)`, which
+    stops reading after max_digits digits.  The formatter writes the value in full, so max_digits must be able to hold max_value
+    (10**max_digits > max_value) - otherwise the largest values format to text that cannot be parsed back.  Arguments are folded
+    to integers; an argument that is a parameter of the enclosing handler factory is followed to the factory's call sites (the
+    handler tables), and each binding is checked."""
+    from ..kit import bind_args
+
+    rr = RuleResult("R07.11", "numeric parse actions can read as many digits as their maximum value has (10**max_digits > max_value) for every binding of the handler factories", min_instances=8)
+    M = ctx.M
+    target = M.func("_SteppedPatternBuilder._add_parse_value_action", required=True)
+
+    def factory_calls(g) -> list[tuple[ast.Call, object, object]]:
+        """call sites of a handler factory: (call, class-or-None, module) - in functions and in class bodies (the handler tables)"""
+        out = []
+        for h in set(M.func_of_node.values()):
+            if isinstance(h.node, ast.Lambda):
+                continue
+            for c in ast.walk(h.node):
+                if isinstance(c, ast.Call) and unparse(c.func).split(".")[-1].split("[")[0] == g.name:
+                    out.append((c, h.cls, h.mod))
+        for cl in M.all_classes():
+            for st in cl.node.body:
+                if isinstance(st, (ast.FunctionDef, ast.AsyncFunctionDef, ast.ClassDef)):
+                    continue
+                for c in ast.walk(st):
+                    if isinstance(c, ast.Call) and unparse(c.func).split(".")[-1].split("[")[0] == g.name:
+                        out.append((c, cl, cl.mod))
+        return out
+
+    def pairs(de: ast.expr, ve: ast.expr, fn) -> list[tuple[int, int]] | None:
+        """(max_digits, max_value) for every way the enclosing factories are called"""
+        d, v = M.fold(de, fn.cls, fn.mod), M.fold(ve, fn.cls, fn.mod)
+        if isinstance(d, int) and isinstance(v, int):
+            return [(d, v)]
+        g = fn
+        while g is not None:
+            ps = [p.arg for p in g.params]
+            need = [e.id for e in (de, ve) if isinstance(e, ast.Name) and e.id in ps]
+            if need:
+                out = []
+                for c, cl, mod in factory_calls(g):
+                    b = bind_args(c, g)
+                    vals = []
+                    for e in (de, ve):
+                        if isinstance(e, ast.Name) and e.id in ps:
+                            a = b.get(e.id)
+                            w = M.fold(a, cl, mod) if a is not None else None
+                        else:
+                            w = M.fold(e, fn.cls, fn.mod)
+                        vals.append(w)
+                    if not all(isinstance(w, int) for w in vals):
+                        return None
+                    out.append((vals[0], vals[1]))
+                return out or None
+            g = g.parent
+        return None
+
+    for f in sorted(set(M.func_of_node.values()), key=lambda x: x.qual):
+        if isinstance(f.node, ast.Lambda) or "/text/" not in f.mod.rel:
+            continue
+        for c in own_nodes(f.node):
+            if not (isinstance(c, ast.Call) and isinstance(c.func, ast.Attribute) and c.func.attr == "_add_parse_value_action"):
+                continue
+            b = bind_args(c, target)
+            if "maximum_digits" not in b or "maximum_value" not in b:
+                continue
+            rr.inst()
+            pr = pairs(b["maximum_digits"], b["maximum_value"], f)
+            if pr is None:
+                rr.undecided.append(f"{f.qual}: `{unparse(b['maximum_digits'])}` / `{unparse(b['maximum_value'])[:40]}` not folded to integers (culture or calendar dependent)")
+                rr.ok()
+                continue
+            worst = [(d, v) for d, v in pr if not 10 ** d > v]
+            if not worst:
+                rr.ok({"site": f.qual, "bindings": len(pr), "tightest": min(pr, key=lambda x: 10 ** x[0] - x[1])})
+            else:
+                d, v = worst[0]
+                rr.fail(f.qual, f"reads at most {d} digits for a field whose maximum value is {v} ({len(str(v))} digits): the largest values are written in full but cannot be parsed back", ctx.loc(f, c))
+    return rr
+
+
+@rule("C07")
+def r07_12_two_digit_year(ctx: Ctx) -> RuleResult:
+    """`yy`: the formatter writes year-of-era % 100; the parser puts a two-digit value into the template's century when it is
+    <= two_digit_year_max and into the previous century when it is greater (the documented meaning of two_digit_year_max: "the
+    maximum two-digit year to treat as the current century").  The century-adjusting test is evaluated by the abstract
+    interpreter at the boundary values (max-1, max, max+1 for max in 0, 30, 50, 98, 99) and must be true exactly for yy > max."""
+    from ..absint import Iv, Obj, State
+    from ..oblig import interp
+
+    rr = RuleResult("R07.12", "two-digit years: the century is stepped back exactly for values above two_digit_year_max (boundary values evaluated)", min_instances=1)
+    M = ctx.M
+    found = False
+    for f in sorted(set(M.func_of_node.values()), key=lambda x: x.qual):
+        if isinstance(f.node, ast.Lambda) or "/text/" not in f.mod.rel or f.cls is None:
+            continue
+        for n in own_nodes(f.node):
+            if not (isinstance(n, ast.If) and "_two_digit_year_max" in unparse(n.test) and any(isinstance(x, ast.AugAssign) and isinstance(x.op, ast.Sub) for b in n.body for x in ast.walk(b))):
+                continue
+            found = True
+            rr.inst()
+            locals_ = {x.id for x in ast.walk(n.test) if isinstance(x, ast.Name) and x.id != f.self_name}
+            bad = None
+            for mx in (0, 30, 50, 98, 99):
+                for yy in (mx - 1, mx, mx + 1):
+                    if not 0 <= yy <= 99:
+                        continue
+                    I = interp(ctx)
+                    env = {f.self_name or "self": Obj(f.cls.name, {"_year_of_era": Iv(yy, yy), "_two_digit_year_max": Iv(mx, mx)})}
+                    for nm in locals_:
+                        env[nm] = Iv(20, 20)  # the template's century (2000..2099)
+                    v = I.ev(n.test, State(env), f, 0)
+                    rr.states += 1
+                    if not (isinstance(v, Iv) and v.const):
+                        bad = bad or (yy, mx, "not decided: " + repr(v))
+                    elif bool(v.lo) != (yy > mx):
+                        bad = bad or (yy, mx, f"steps the century back: {bool(v.lo)}")
+            if bad is None:
+                rr.ok({"fn": f.qual, "test": unparse(n.test)[:80]})
+            else:
+                rr.fail(f.qual, f"two-digit year {bad[0]:02d} with two_digit_year_max={bad[1]}: {bad[2]}, but {bad[0]:02d} {'>' if bad[0] > bad[1] else '<='} {bad[1]} means the {'previous' if bad[0] > bad[1] else 'template'} century - the value the formatter wrote parses back a century off", ctx.loc(f, n))
+    if not found:
+        raise AnalysisError("century adjustment for two-digit years not found in the text layer")
+    return rr
